@@ -22,7 +22,7 @@ RULE = (
     "set_seed}; copying operations that fail on an uncopyable value; plus deliberately duplicate-named and cyclic graphs. After every rejected attempt the "
     "structural snapshot must be unchanged and the model must stay coherent under further assignments; "
     "every round-trip model is compared in state and behaviour (C01 monitor) and for independence. "
-    "Also: rebuild from the same GraphBuilder after a rejected build; variables with user-named nodes (rename attempts in a model, same-named variables with distinct node names). non-trivial = program with a shared input, an unnamed node and >= 1 round trip; distinct by program hash"
+    "Also: rebuild from the same GraphBuilder after a rejected build; variables with user-named nodes (rename attempts in a model, same-named variables with distinct node names). Round 5: stand-alone Dist with a lonely `at` node; save/load and deepcopy of a model with pending updates. non-trivial = program with a shared input, an unnamed node and >= 1 round trip; distinct by program hash"
 )
 REQUIRED = ["builder_usable_after_rejected_build", "unchanged_after_failed_copy", "complete_and_unique", "outputs_inverse_of_inputs", "topological_order", "rejects_duplicates",
             "rejects_cycles", "mutation_rejected", "unchanged_after_rejection", "foreign_build_rejected",
